@@ -215,6 +215,10 @@ func genConcTx(r *rand.Rand, shard int, ds bool, kvSetsOnly bool, search bool, c
 			ops = append(ops, Op{K: "PrefixSearchScan", B: b, Key: []byte("k"), Re: re, I: 0, J: -1})
 			continue
 		}
+		if r.Intn(5) == 0 {
+			ops = append(ops, Op{K: "Get", B: b, Key: []byte("k3")})
+			continue
+		}
 		switch x := r.Intn(10); {
 		case !ds && x >= 6:
 			if x < 8 {
@@ -256,6 +260,20 @@ func genConcTx(r *rand.Rand, shard int, ds bool, kvSetsOnly bool, search bool, c
 	}
 	nw := 1 + r.Intn(3)
 	for i := 0; i < nw; i++ {
+		if r.Intn(6) == 0 {
+			// a third key that is, at random, written already expired (timestamp far in the past: no verdict depends
+			// on the clock), live with a TTL far in the future, or deleted: read paths that treat expired records
+			// specially (lazy expiry, counters) run concurrently with each other
+			switch r.Intn(3) {
+			case 0:
+				ops = append(ops, Op{K: "PutTS", B: b, Key: []byte("k3"), Val: val(), TS: 1, TTL: 1})
+			case 1:
+				ops = append(ops, Op{K: "PutTS", B: b, Key: []byte("k3"), Val: val(), TS: modelNow() - 1000000, TTL: 4000000})
+			default:
+				ops = append(ops, Op{K: "Put", B: b, Key: []byte("k3"), Val: val()})
+			}
+			continue
+		}
 		switch x := r.Intn(12); {
 		case x < 5 || !ds:
 			if r.Intn(5) == 0 {
@@ -536,7 +554,7 @@ func runConc(c *CaseCtx, cc concCfg) *concResult {
 		ds := cc.DBs[di].Mode == 0
 		for shard := 0; shard < cc.Shards; shard++ {
 			b := shardBucket(shard)
-			ops := []Op{{K: "Get", B: b, Key: []byte("k1")}, {K: "Get", B: b, Key: []byte("k2")}, {K: "Get", B: b, Key: []byte("seq")},
+			ops := []Op{{K: "Get", B: b, Key: []byte("k1")}, {K: "Get", B: b, Key: []byte("k2")}, {K: "Get", B: b, Key: []byte("k3")}, {K: "Get", B: b, Key: []byte("seq")},
 				{K: "GetAll", B: b}, {K: "PrefixScan", B: b, Key: []byte("k"), I: 0, J: -1}}
 			if ds {
 				ops = append(ops, Op{K: "SMembers", B: b, Key: []byte("s")})
